@@ -6,6 +6,7 @@ import (
 	"fmt"
 	"net/http"
 	"os/exec"
+	"sync"
 	"time"
 
 	mcp "trpc.group/trpc-go/trpc-mcp-go"
@@ -28,6 +29,7 @@ type World struct {
 	Reg    registrar
 	Count  *Counter
 	stdios []*stdioLink
+	procMu sync.Mutex
 	nextCl int
 }
 
@@ -135,9 +137,17 @@ type stdioLink struct {
 // stdioSetups are replayed on every new server instance of a stdio world (one process per client).
 type stdioSetup func(srv *mcp.StdioServer)
 
+// The table of simulated processes is shared by workload tasks (one creates a process while another
+// registers something on all of them).  The hand-over goes through a real mutex so that the race
+// detector sees the happens-before edge an application would also have when it passes a server
+// from the goroutine that built it to another one (without it C20 reported NewStdioServer's
+// initialising writes against RegisterPrompt's reads - a race of the harness, not of the library).
 func (w *World) addStdioSetup(f stdioSetup) {
+	w.procMu.Lock()
 	w.C.S.Vars["stdioSetups:"+w.Host] = append(w.stdioSetupsOf(), f)
-	for _, l := range w.stdios {
+	links := append([]*stdioLink(nil), w.stdios...)
+	w.procMu.Unlock()
+	for _, l := range links {
 		f(l.Srv)
 	}
 }
@@ -184,8 +194,11 @@ func (w *World) newStdioClient(name string) *Client {
 	// order matters when registrations race process creation: publish the process first, then apply
 	// the setups known so far (a setup added meanwhile is applied by addStdioSetup; double application
 	// of a registration is harmless)
+	w.procMu.Lock()
 	w.stdios = append(w.stdios, link)
-	for _, f := range w.stdioSetupsOf() {
+	setups := append([]stdioSetup(nil), w.stdioSetupsOf()...)
+	w.procMu.Unlock()
+	for _, f := range setups {
 		f(srv)
 	}
 	ctx, cancel := context.WithCancel(context.Background())
